@@ -614,6 +614,8 @@ fn run_late_reader_case(i: u64, rng: &mut Rng, rep: &mut Report, verbose: bool) 
     let collect = rng.bool();
     let fault = rng.below(3);
     let adapted = rng.bool();
+    // the caller gives up instead of reading: finish() right away on a stream whose connection is gone
+    let finish_only = !collect && rng.chance(1, 3);
     let rt = runtime(rng.next());
     let obs = rt.block_on(async move {
         let c = connect();
@@ -635,6 +637,13 @@ fn run_late_reader_case(i: u64, rng: &mut Rng, rep: &mut Report, verbose: bool) 
                 };
                 // lag: read only after the server has finished and the connection is gone
                 tokio::time::sleep(std::time::Duration::from_millis(500)).await;
+                if finish_only {
+                    return match world::watchdog(Caught::new(st.finish())).await {
+                        Ok(Ok(r)) => format!("FinishOnly(rc={})", r.rc),
+                        Ok(Err(p)) => format!("FinishOnly(Panic({}))", p.site()),
+                        Err(()) => "FinishOnly(Hung)".into(),
+                    };
+                }
                 let mut k = 0;
                 let end = loop {
                     match world::watchdog(Caught::new(st.next())).await {
@@ -674,8 +683,11 @@ fn run_late_reader_case(i: u64, rng: &mut Rng, rep: &mut Report, verbose: bool) 
         out
     });
     let replay = json!({"lane":"late_readers","case":i,"items":n,"done_sent":done_sent,"collect":collect,"fault":fault,"adapted":adapted});
-    let what = if collect { "search()" } else if adapted { "lagging-adapted-stream" } else { "lagging-stream" };
-    let want = if collect {
+    let what = if collect { "search()" } else if finish_only { "finish-without-reading" } else if adapted { "lagging-adapted-stream" } else { "lagging-stream" };
+    let want = if finish_only {
+        // a stream given up before it was read to its end
+        "FinishOnly(rc=88)".to_string()
+    } else if collect {
         if done_sent { format!("Ok(entries={},rc=0,text=t:done)", n) } else { "Err(".to_string() }
     } else if done_sent {
         format!("Stream(items={},End,finish-rc=0)", n)
